@@ -52,6 +52,9 @@ type World struct {
 	escMemo    map[ssa.Value]bool
 	stableMemo map[string]bool
 	factMemo   map[*ssa.Function]*funcFacts
+	dead       map[edgeKey]bool
+	keyDepth   int
+	liveMemo   map[*ssa.Function]map[*ssa.BasicBlock]bool
 	li         *lockInfo
 	eff        *effectInfo
 	fl         *flowInfo
@@ -172,6 +175,7 @@ func Load(dir, goos, goarch string) *World {
 		w.factMemo = map[*ssa.Function]*funcFacts{}
 	}
 	w.inferRenames()
+	w.computeDeadEdges()
 	if w.ren != nil && len(w.ren.notes) > 0 && os.Getenv("TURNCHECK_QUIET") == "" {
 		fmt.Fprintf(os.Stderr, "note: %d renamed member(s) recognised: %s\n", len(w.ren.notes), strings.Join(w.ren.notes, "; "))
 	}
